@@ -74,6 +74,17 @@ theorem check_solver_status_spec (s : String) :
   refine ⟨by decide, by decide, fun h => ?_⟩
   simp [checkSolverStatus, h]
 
+/-- **no status without primal values passes silently**: whatever `raise_error` is, a status that is neither `optimal` nor in the generated
+`has_primals` list makes `check_solver_status` raise — so `_fva_step`, `Reaction.flux`, `Metabolite.shadow_price` and `get_solution` never read
+numbers out of an unbounded or undefined problem.  The function itself is compared with `checkSolverStatus` on every status constant of
+optlang, `None` and an unknown status, with both values of the flag (`harness/c04.py`, exhaustive) -/
+theorem check_solver_status_no_silent_pass (s : String) (r : Bool) (h1 : (s == "optimal") = false)
+    (h2 : Gen.hasPrimals.contains s = false) : checkSolverStatus (some s) r = some "OptimizationError" := by
+  simp only [checkSolverStatus, h1, h2, Bool.false_and, Bool.false_eq_true, if_false]
+
+theorem unbounded_status_always_raises (r : Bool) : checkSolverStatus (some "unbounded") r = some "OptimizationError" := by
+  cases r <;> decide
+
 /-! ### non-vacuity: concrete certificates the checker accepts -/
 def demoLP : LP := { n := 2, vb := [⟨some 0, some 4⟩, ⟨some 0, none⟩],
                      rows := [([1, 1], ⟨none, some 6⟩), ([1, -1], ⟨some (-2), none⟩)], obj := [1, 2] }
